@@ -77,7 +77,7 @@ def gen_structure(g: Gen):
     fn, text = find_def("pattern_matching", "subn")
     inner = [n for n in ast.walk(fn) if isinstance(n, ast.FunctionDef) and n is not fn]
     ok = bool(inner) and any("processing.fix" in ast.unparse(d) for d in inner[0].decorator_list)
-    g.oblige("structure", "subn-rule-runs-through-processing.fix", [], z3.BoolVal(ok), fn.lineno)
+    g.oblige_text("structure", "subn-rule-runs-through-processing.fix", ok, fn.lineno)
     DIRECT = {"fixes.delete_commented_code", "fixes.move_before_loop", "fixes.delete_unused_functions_and_classes", "fixes.breakout_common_code_in_ifs",
               "abstractions.simplify_if_control_flow", "fixes.swap_if_else", "fixes.early_return", "fixes.early_continue", "fixes.missing_context_manager",
               "fixes.remove_duplicate_functions", "fixes.fix_duplicate_imports", "fixes.fix_too_many_blank_lines", "fixes.add_missing_imports",
